@@ -42,3 +42,27 @@ func ZZ_C18_Compile() {
 	}
 	zz.Reach("end")
 }
+
+
+// ZZ_C18_Deferred: two dependencies call the same task, which has a deferred
+// command with a template, concurrently.
+func ZZ_C18_Deferred() {
+	probe := zzCmd{}
+	g := &zzGraph{Tasks: []zzTask{
+		{Name: "R", Deps: []string{"A", "B"}},
+		{Name: "A", Cmds: []zzCmd{{Call: "T", Var: "x"}}},
+		{Name: "B", Cmds: []zzCmd{{Call: "T", Var: "y"}}},
+		{Name: "T", Cmds: []zzCmd{{Defer: true}, probe}},
+	}}
+	tf := g.build(func(string) bool { return false })
+	t, _ := tf.Tasks.Get("T")
+	t.Cmds[0].Cmd += "#{{.V}}" // rendered when the deferred command runs
+	if zz.Native() {
+		t.Cmds[0].Cmd = "echo S:T.0 {{.V}}; echo F:T.0:0"
+	}
+	_, _ = zzExec(g, tf, zzRunOpts{}, "R")
+	if zz.Twin() {
+		zz.Assert(false, "twin")
+	}
+	zz.Reach("end")
+}
